@@ -45,6 +45,14 @@ theorem header_size (u1 u2 n : Nat) : leVal (((header u1 u2 n).drop 4).take 4) =
   unfold header
   rw [drop_append_len _ _ 4 (by simp), List.take_of_length_le (by simp), leVal_leBytes]
 
+theorem leVal_lt' (b : Bytes) : leVal b < 256 ^ b.length := by
+  induction b with
+  | nil => simp [leVal]
+  | cons x xs ih =>
+    have hx := x.toNat_lt
+    simp only [leVal, List.length_cons, Nat.pow_succ]
+    omega
+
 /-! ### `int64` wrap-around -/
 
 theorem w64_id (x : Int) (h1 : -9223372036854775808 ≤ x) (h2 : x < 9223372036854775808) : w64 x = x := by
@@ -137,13 +145,13 @@ theorem locate_framed (base blob : Bytes) (u1 u2 u3 : Nat) (hb : blob.length + 8
   have hc : (blob.length + 8 + 4294967296 - 8) % 4294967296 = blob.length := by omega
   rw [hn, hc, if_neg (fun h => h rfl), r3, bind_ok, Int.toNat_natCast]
 
-/-! ### `removeSignature` -/
+/-! ### `removeSignatureOrig` (before the repair of FX1) -/
 
-theorem removeSignature_cases (cd : Bytes) :
-    (removeSignature cd = cd ∧ ¬ (10 ≤ cd.length ∧ trMagic cd = trailerMagic ∧ trSize cd + 10 ≤ cd.length)) ∨
-    (removeSignature cd = cd.take (cd.length - (trSize cd + 10)) ∧
+theorem removeSignatureOrig_cases (cd : Bytes) :
+    (removeSignatureOrig cd = cd ∧ ¬ (10 ≤ cd.length ∧ trMagic cd = trailerMagic ∧ trSize cd + 10 ≤ cd.length)) ∨
+    (removeSignatureOrig cd = cd.take (cd.length - (trSize cd + 10)) ∧
       10 ≤ cd.length ∧ trMagic cd = trailerMagic ∧ trSize cd + 10 ≤ cd.length) := by
-  unfold removeSignature
+  unfold removeSignatureOrig
   by_cases h1 : cd.length < 10
   · left; rw [if_pos h1]; exact ⟨rfl, by omega⟩
   · rw [if_neg h1]
@@ -154,14 +162,10 @@ theorem removeSignature_cases (cd : Bytes) :
       · right; rw [if_neg h3]; exact ⟨rfl, by omega, h2, by omega⟩
     · left; rw [if_neg h2]; exact ⟨rfl, fun h => h2 h.2.1⟩
 
-/-- the result is a prefix of the argument -/
-theorem removeSignature_take (cd : Bytes) : removeSignature cd = cd.take (removeSignature cd).length := by
-  rcases removeSignature_cases cd with ⟨h, _⟩ | ⟨h, _⟩
+theorem removeSignatureOrig_take (cd : Bytes) : removeSignatureOrig cd = cd.take (removeSignatureOrig cd).length := by
+  rcases removeSignatureOrig_cases cd with ⟨h, _⟩ | ⟨h, _⟩
   · rw [h]; simp
   · rw [h]; simp
-
-theorem removeSignature_length_le (cd : Bytes) : (removeSignature cd).length ≤ cd.length := by
-  rw [removeSignature_take cd]; simp; omega
 
 theorem trMagic_append_trailer (c : Bytes) (u t : Nat) : trMagic (c ++ trailer u t) = trailerMagic := by
   unfold trMagic
@@ -173,20 +177,176 @@ theorem trSize_append_trailer (c : Bytes) (u t : Nat) : trSize (c ++ trailer u t
   rw [drop_append_len c _ _ (by simp)]
   exact trailer_size u t
 
-/-- **removeSignature_frame.** A blob that ends in header ++ blob ++ trailer (sizes consistent, no wrap) loses exactly that frame. -/
-theorem removeSignature_framed (c : Bytes) (u1 u2 u3 : Nat) (blob : Bytes) (hb : blob.length + 8 < 4294967296) :
-    removeSignature (framed c u1 u2 u3 blob) = c := by
+/-! ### `frameSize` / `removeSignature` (repaired) -/
+
+/-- what `frameSize f = k` with `k ≠ 0` means, field by field -/
+theorem frameSize_pos (f : Bytes) (h : frameSize f ≠ 0) :
+    18 ≤ f.length ∧ trMagic f = trailerMagic ∧ 8 ≤ trSize f ∧ trSize f + 10 ≤ f.length ∧
+    leVal ((f.drop (f.length - (trSize f + 10) + 4)).take 4) = trSize f - 8 ∧ frameSize f = trSize f + 10 := by
+  unfold frameSize at h ⊢
+  by_cases h1 : f.length < 18
+  · rw [if_pos h1] at h; exact absurd rfl h
+  rw [if_neg h1] at h ⊢
+  by_cases h2 : trMagic f ≠ trailerMagic ∨ trSize f < 8
+  · rw [if_pos h2] at h; exact absurd rfl h
+  rw [if_neg h2] at h ⊢
+  by_cases h3 : f.length < trSize f + 10
+  · rw [if_pos h3] at h; exact absurd rfl h
+  rw [if_neg h3] at h ⊢
+  by_cases h4 : leVal ((f.drop (f.length - (trSize f + 10) + 4)).take 4) ≠ trSize f - 8
+  · rw [if_pos h4] at h; exact absurd rfl h
+  rw [if_neg h4]
+  have hm : trMagic f = trailerMagic := Classical.byContradiction fun c => h2 (Or.inl c)
+  exact ⟨by omega, hm, by omega, by omega, Classical.not_not.mp h4, rfl⟩
+
+theorem frameSize_le (f : Bytes) : frameSize f ≤ f.length := by
+  by_cases h : frameSize f = 0
+  · omega
+  · obtain ⟨_, _, _, h4, _, h6⟩ := frameSize_pos f h; omega
+
+/-- the result is a prefix of the argument -/
+theorem removeSignature_take (cd : Bytes) : removeSignature cd = cd.take (removeSignature cd).length := by
+  unfold removeSignature; simp
+
+theorem removeSignature_length (cd : Bytes) : (removeSignature cd).length = cd.length - frameSize cd := by
+  unfold removeSignature; simp
+
+theorem removeSignature_length_le (cd : Bytes) : (removeSignature cd).length ≤ cd.length := by
+  rw [removeSignature_length]; omega
+
+/-- on a blob that ends in a consistent frame (no wrap) `frameSize` is the length of that frame -/
+theorem frameSize_framed (c : Bytes) (u1 u2 u3 : Nat) (blob : Bytes) (hb : blob.length + 8 < 4294967296) :
+    frameSize (framed c u1 u2 u3 blob) = blob.length + 18 := by
   have e : framed c u1 u2 u3 blob = (c ++ (header u1 u2 blob.length ++ blob)) ++ trailer u3 (blob.length + 8) := by
     simp [framed]
+  have e2 : framed c u1 u2 u3 blob =
+      (c ++ leBytes 2 u1 ++ leBytes 2 u2) ++ (leBytes 4 blob.length ++ (blob ++ trailer u3 (blob.length + 8))) := by
+    simp [framed, header]
   have hl := framed_length c u1 u2 u3 blob
   have hm : trMagic (framed c u1 u2 u3 blob) = trailerMagic := by rw [e]; exact trMagic_append_trailer _ _ _
   have hs : trSize (framed c u1 u2 u3 blob) = blob.length + 8 := by
     rw [e, trSize_append_trailer, Nat.mod_eq_of_lt hb]
+  have hd : leVal (((framed c u1 u2 u3 blob).drop (c.length + 4)).take 4) = blob.length := by
+    rw [e2, drop_append_len _ _ _ (by simp), take_append_len _ _ _ (by simp), leVal_leBytes]
+    exact Nat.mod_eq_of_lt (by omega)
+  unfold frameSize
+  rw [if_neg (by omega), hm, hs, if_neg (by omega), if_neg (by omega), hl]
+  have : c.length + blob.length + 18 - (blob.length + 8 + 10) + 4 = c.length + 4 := by omega
+  rw [this, hd, if_neg (by omega)]
+
+/-- **removeSignature_framed.** A blob that ends in header ++ blob ++ trailer (sizes consistent, no wrap) loses exactly that frame. -/
+theorem removeSignature_framed (c : Bytes) (u1 u2 u3 : Nat) (blob : Bytes) (hb : blob.length + 8 < 4294967296) :
+    removeSignature (framed c u1 u2 u3 blob) = c := by
   unfold removeSignature
-  rw [if_neg (by omega), if_pos hm, hs, if_neg (by omega), hl]
-  have : c.length + blob.length + 18 - (blob.length + 8 + 10) = c.length := by omega
+  rw [frameSize_framed c u1 u2 u3 blob hb, framed_length]
+  have : c.length + blob.length + 18 - (blob.length + 18) = c.length := by omega
   rw [this]
   simp [framed]
+
+theorem leBytes_leVal (b : Bytes) : leBytes b.length (leVal b) = b := by
+  induction b with
+  | nil => rfl
+  | cons x xs ih =>
+    have hx := x.toNat_lt
+    simp only [leVal, List.length_cons, leBytes]
+    have e1 : (x.toNat + 256 * leVal xs) % 256 = x.toNat := by omega
+    have e2 : (x.toNat + 256 * leVal xs) / 256 = leVal xs := by omega
+    rw [e1, e2, ih]
+    simp
+
+theorem eq_leBytes (x : Bytes) (n : Nat) (h : x.length = n) : x = leBytes n (leVal x) := by
+  subst h; exact (leBytes_leVal x).symm
+
+/-- **frameSize_pos_framed.** The converse: whenever `frameSize f ≠ 0`, the last `frameSize f` bytes of `f` *are* a header, a
+    blob and a trailer whose size fields agree with the blob (for some values of the three `Unknown` fields): nothing but a
+    complete signature frame is ever cut off by the repaired `removeSignature`. -/
+theorem frameSize_pos_framed (f : Bytes) (h : frameSize f ≠ 0) :
+    ∃ u1 u2 u3 : Nat, ∃ blob : Bytes, f = framed (f.take (f.length - frameSize f)) u1 u2 u3 blob ∧
+      frameSize f = blob.length + 18 ∧ blob.length + 8 < 4294967296 := by
+  obtain ⟨h18, hm, h8, hfit, hsz, hk⟩ := frameSize_pos f h
+  generalize hts : trSize f = ts at *
+  rw [hk]
+  have hn : f.length - (ts + 10) + (ts + 10) = f.length := by omega
+  generalize hnn : f.length - (ts + 10) = n at *
+  -- the three pieces behind the prefix
+  obtain ⟨H, hHd⟩ : ∃ H, H = (f.drop n).take 8 := ⟨_, rfl⟩
+  obtain ⟨B, hBd⟩ : ∃ B, B = (f.drop (n + 8)).take (ts - 8) := ⟨_, rfl⟩
+  obtain ⟨T, hTd⟩ : ∃ T, T = f.drop (n + ts) := ⟨_, rfl⟩
+  have hH : H.length = 8 := by rw [hHd]; simp; omega
+  have hB : B.length = ts - 8 := by rw [hBd]; simp; omega
+  have hT : T.length = 10 := by rw [hTd]; simp; omega
+  have hsplit : f = f.take n ++ (H ++ (B ++ T)) := by
+    have a1 : f = f.take n ++ f.drop n := (List.take_append_drop n f).symm
+    have a2 : f.drop n = H ++ (f.drop n).drop 8 := by rw [hHd]; exact (List.take_append_drop 8 (f.drop n)).symm
+    have a3 : (f.drop n).drop 8 = f.drop (n + 8) := by rw [List.drop_drop]
+    have a4 : f.drop (n + 8) = B ++ (f.drop (n + 8)).drop (ts - 8) := by rw [hBd]; exact (List.take_append_drop (ts - 8) _).symm
+    have a5 : (f.drop (n + 8)).drop (ts - 8) = T := by
+      rw [List.drop_drop, hTd]; congr 1; omega
+    rw [a5] at a4
+    rw [a3, a4] at a2
+    rw [a2] at a1
+    exact a1
+  -- the header
+  have hH4 : H.drop 4 = (f.drop (n + 4)).take 4 := by
+    rw [hHd, List.drop_take, List.drop_drop]
+  have hHsz : leVal (H.drop 4) = ts - 8 := by rw [hH4]; exact hsz
+  have hHeq : H = header (leVal (H.take 2)) (leVal ((H.drop 2).take 2)) (ts - 8) := by
+    unfold header
+    have p1 : H = H.take 2 ++ ((H.drop 2).take 2 ++ H.drop 4) := by
+      have b1 : H = H.take 2 ++ H.drop 2 := (List.take_append_drop 2 H).symm
+      have b2 : H.drop 2 = (H.drop 2).take 2 ++ (H.drop 2).drop 2 := (List.take_append_drop 2 _).symm
+      rw [List.drop_drop] at b2
+      rw [b2] at b1; exact b1
+    rw [← hHsz, List.append_assoc,
+      ← eq_leBytes (H.take 2) 2 (by simp [hH]), ← eq_leBytes ((H.drop 2).take 2) 2 (by simp [hH]),
+      ← eq_leBytes (H.drop 4) 4 (by simp [hH])]
+    exact p1
+  -- the trailer
+  have hTm : leVal (T.take 4) = trailerMagic := by
+    have : f.length - 10 = n + ts := by omega
+    unfold trMagic at hm; rw [this, ← hTd] at hm; exact hm
+  have hTs : leVal (T.drop 6) = ts := by
+    have : f.length - 10 = n + ts := by omega
+    unfold trSize at hts; rw [this, ← hTd] at hts
+    have l4 : (T.drop 6).length = 4 := by simp [hT]
+    rw [List.take_of_length_le (by omega)] at hts
+    exact hts
+  have hTeq : T = trailer (leVal ((T.drop 4).take 2)) ts := by
+    unfold trailer
+    have p1 : T = T.take 4 ++ ((T.drop 4).take 2 ++ T.drop 6) := by
+      have b1 : T = T.take 4 ++ T.drop 4 := (List.take_append_drop 4 T).symm
+      have b2 : T.drop 4 = (T.drop 4).take 2 ++ (T.drop 4).drop 2 := (List.take_append_drop 2 _).symm
+      rw [List.drop_drop] at b2
+      rw [b2] at b1; exact b1
+    rw [← hTm, List.append_assoc]
+    conv => rhs; rw [← hTs]
+    rw [← eq_leBytes (T.take 4) 4 (by simp [hT]), ← eq_leBytes ((T.drop 4).take 2) 2 (by simp [hT]),
+      ← eq_leBytes (T.drop 6) 4 (by simp [hT])]
+    exact p1
+  have hts32 : ts < 4294967296 := by
+    rw [← hTs]
+    have := leVal_lt' (T.drop 6)
+    have l4 : (T.drop 6).length = 4 := by simp [hT]
+    rw [l4] at this; omega
+  refine ⟨leVal (H.take 2), leVal ((H.drop 2).take 2), leVal ((T.drop 4).take 2), B, ?_, by omega, by omega⟩
+  have hnn' : f.length - (ts + 10) = n := hnn
+  have e8 : ts - 8 = B.length := hB.symm
+  have e10 : ts = B.length + 8 := by omega
+  unfold framed
+  rw [← e8]
+  have e88 : ts - 8 + 8 = ts := by omega
+  rw [e88, ← hHeq, ← hTeq]
+  exact hsplit
+
+/-- the repaired function strips only where the original did, and then the same bytes -/
+theorem removeSignature_eq_or (cd : Bytes) : removeSignature cd = cd ∨ removeSignature cd = removeSignatureOrig cd := by
+  by_cases h : frameSize cd = 0
+  · left; unfold removeSignature; rw [h]; simp
+  · right
+    obtain ⟨h18, hm, h8, hfit, _, hk⟩ := frameSize_pos cd h
+    rcases removeSignatureOrig_cases cd with ⟨_, hn⟩ | ⟨e, _⟩
+    · exact absurd ⟨by omega, hm, hfit⟩ hn
+    · rw [e]; unfold removeSignature; rw [hk]
 
 /-! ### what a success of the read primitives and of `bind` implies -/
 
